@@ -40,6 +40,40 @@ impl Updatable<E> for Motor { fn update(&mut self) -> NothingOrError<E> { self.u
 struct Enc { t: i64 }
 impl Getter<State, E> for Enc { fn get(&self) -> Out<State> { if self.t % 3 == 0 { Ok(None) } else { Ok(Some(Datum::new(Time(self.t), st(self.t as f32)))) } } }
 impl Updatable<E> for Enc { fn update(&mut self) -> NothingOrError<E> { self.t += 1; Ok(()) } }
+
+// ---- to_dyn! on a Reference that is the ONLY handle to its target: if the conversion succeeds the result
+// must keep the target alive (a conversion through a raw pointer of an Rc/Arc would drop it)
+pub trait Tr { fn v(&self) -> u64; }
+struct Tgt { v: u64, dropped: std::sync::Arc<std::sync::atomic::AtomicBool> }
+impl Tr for Tgt { fn v(&self) -> u64 { self.v } }
+impl Drop for Tgt { fn drop(&mut self) { self.dropped.store(true, std::sync::atomic::Ordering::SeqCst); } }
+/// returns (variant name, Ok(None) = macro panicked (not supported), Ok(Some(value read)), Err(description))
+fn to_dyn_sole_handle(variant: usize) -> (&'static str, Result<Option<u64>, String>) {
+    use std::sync::atomic::Ordering;
+    let flag = std::sync::Arc::new(std::sync::atomic::AtomicBool::new(false));
+    let t = Tgt { v: 41 + variant as u64, dropped: flag.clone() };
+    let (name, r): (&'static str, Reference<Tgt>) = match variant {
+        0 => ("RcRefCell", rc_ref_cell_reference(t)),
+        1 => ("ArcRwLock", arc_rw_lock_reference(t)),
+        _ => ("ArcMutex", arc_mutex_reference(t)),
+    };
+    let conv = catch(move || to_dyn!(Tr, r));
+    match conv {
+        Err(_) => (name, Ok(None)),
+        Ok(d) => {
+            if flag.load(Ordering::SeqCst) { return (name, Err(format!("to_dyn! on the only {} handle succeeded but the target was dropped while the trait-object Reference is alive", name))); }
+            let got = d.borrow().v();
+            let c = d.clone();
+            drop(d);
+            if flag.load(Ordering::SeqCst) { return (name, Err(format!("target of a {} Reference dropped while a clone of the trait-object Reference is alive", name))); }
+            let got2 = c.borrow().v();
+            drop(c);
+            if got != 41 + variant as u64 || got2 != got { return (name, Err(format!("trait-object Reference reads {} / {}", got, got2))); }
+            if !flag.load(Ordering::SeqCst) { return (name, Err(format!("target of a {} Reference never dropped after the last handle", name))); }
+            (name, Ok(Some(got)))
+        }
+    }
+}
 fn main() {
     let a: Vec<String> = std::env::args().collect();
     let scenario = a.get(1).cloned().unwrap_or_default();
@@ -56,7 +90,9 @@ fn main() {
                 let (base, total) = if n <= 5 { (3u64, 3u64.pow(n as u32)) } else { (2u64, 1u64 << n) };
                 for code in 0..total {
                     if (code + n as u64) % nshards != shard { continue; }
-                    let pat = digits(code, n, base);
+                    let mut pat = digits(code, n, base);
+                    // every third pattern: present inputs become read-once inputs (present on the first poll only)
+                    if code % 3 == 2 { for p in pat.iter_mut() { if *p == 1 { *p = 4; } } }
                     for quantity in [false, true] {
                         let mut rng = Rng::new(1, 1690, code * 31 + n as u64);
                         calls += 1;
@@ -144,6 +180,13 @@ fn main() {
                 for i in 1..5 { set_state(&ext[2], i * 1_000_000, st(i as f32)); if i == 3 { set_cmd(&ext[2], i * 1_000_000, Command::Velocity(1.0)); } let _ = w.update(); }
                 w.get_terminal().borrow_mut().disconnect();
                 calls += 4;
+            }
+        }
+        "to_dyn" => {
+            for variant in 0..3 {
+                calls += 1;
+                let (name, r) = to_dyn_sole_handle(variant);
+                if let Err(m) = r { println!("MIRI-MISMATCH to_dyn {}: {}", name, m); panics += 1; }
             }
         }
         other => { println!("MIRI-BAD-SCENARIO {}", other); std::process::exit(2); }
